@@ -24,13 +24,17 @@ Definition keys (m : nmapR) : list N := map fst m.
 Definition nodes_match (st : mstateR) : Prop :=
   NoDup (keys (ms_nodes st)) /\ (forall k, In k (keys (ms_nodes st)) <-> In k (all_nodes (tris (ms_faces st)))).
 
-(* well-formedness of one traced operation with respect to the state it is applied to *)
+(* well-formedness of one traced operation with respect to the state it is applied to; the last conjunct of the
+   split / merge clauses says that the id of the new node is not the key of a live node (cell::add_node takes a free
+   slot or appends one) *)
 Definition op_wf (st : mstateR) (o : op) : Prop :=
   match o with
   | OpSplit a b e => In (a, b) (all_hedges (tris (ms_faces st))) /\ ~ In e (all_nodes (tris (ms_faces st))) /\
-                     apex (ms_faces st) a b <> apex (ms_faces st) b a
+                     apex (ms_faces st) a b <> apex (ms_faces st) b a /\
+                     ~ In e (keys (ms_nodes st))
   | OpMerge a b i => In (a, b) (all_hedges (tris (ms_faces st))) /\ ~ In i (all_nodes (tris (ms_faces st))) /\
-                     link_ok (ms_faces st) a b = true /\ (4 < n_vertices (tris (ms_faces st)))%nat
+                     link_ok (ms_faces st) a b = true /\ apex (ms_faces st) a b <> apex (ms_faces st) b a /\
+                     ~ In i (keys (ms_nodes st))
   | OpSwap a b => In (a, b) (all_hedges (tris (ms_faces st))) /\ apex (ms_faces st) a b <> apex (ms_faces st) b a /\
                   (forall c d, apex (ms_faces st) a b = Some c -> apex (ms_faces st) b a = Some d ->
                                edge_exists (ms_faces st) c d = false)
